@@ -194,6 +194,10 @@ class P:
                     self.eat()
                     if e[0] == "if" and e[3] is None:
                         stmts.append(("ifstmt", e[1], e[2]))
+                    elif e[0] == "try" and e[1][0] == "call":
+                        stmts.append(("trystmt", e[1]))
+                    elif e[0] == "method" and e[1] == "reset" and e[2] == ("var", "work"):
+                        stmts.append(("workreset", e[3]))
                     else:
                         raise CannotTranslate(f"expression statement `{e[0]}`")
                 elif self.at("}") or self.peek()[0] == "eof":
@@ -248,7 +252,8 @@ class P:
                 else:
                     raise CannotTranslate(f"field access .{m}")
             elif self.at("?"):
-                raise CannotTranslate("`?` operator")
+                self.eat()
+                e = ("try", e)
             else:
                 return e
 
@@ -549,10 +554,42 @@ class Tr:
             if not (body and body[-1][0] == "return"):
                 raise CannotTranslate("`if` statement whose body does not end in `return`")
             return self.B(s[1], env, self.stmts(body, dict(env), None), self.stmts(rest, env, k))
+        if s[0] == "trystmt":
+            # `f(args)?;` : an Err of the callee is returned, otherwise execution goes on
+            call = s[1]
+            if call[1] not in self.fns or self.fns[call[1]][2] != "res":
+                raise CannotTranslate(f"`?` on a call of `{call[1]}`")
+            lean, arity, _ = self.fns[call[1]]
+            args = call[2]
+            if len(args) != arity:
+                raise CannotTranslate(f"call of {call[1]} with {len(args)} arguments")
+
+            def go(i, acc):
+                if i == len(args):
+                    return (f"(match {lean} {' '.join(acc)} with | none => none | some (Res.Err e) => some (Res.Err e) "
+                            f"| some (Res.Ok _) => {self.stmts(rest, env, k)})")
+                return self.N(args[i], env, lambda a: go(i + 1, acc + [a]))
+            return go(0, [])
+        if s[0] == "workreset":
+            # `work.reset(args…);` : the request is what the function returns (with its final `Ok(())`)
+            if "$reset" in env:
+                raise CannotTranslate("two work.reset calls")
+
+            def go(i, acc):
+                if i == len(s[1]):
+                    env2 = dict(env)
+                    env2["$reset"] = "(" + ", ".join(acc) + ")"
+                    return self.stmts(rest, env2, k)
+                return self.N(s[1][i], env, lambda a: go(i + 1, acc + [a]))
+            return go(0, [])
         if s[0] == "tail":
             if rest:
                 raise CannotTranslate("tail expression followed by statements")
             e = s[1]
+            if "$reset" in env:
+                if e == ("call", "Ok", [("unit",)]):
+                    return k(f"(Res.Ok {env['$reset']})")
+                raise CannotTranslate("a function that calls work.reset must end in Ok(())")
             if e[0] == "match":
                 return self.match(e, env, lambda b, en: self.stmts(b, dict(en), k))
             if e[0] == "if" and e[3] is not None and not self.is_bool(e):
@@ -573,6 +610,8 @@ class Tr:
                 ty.append(p.eat())
             if p.at(","):
                 p.eat()
+            if n == "work" and "".join(ty) in ("&mutEncoderWork", "&mutDecoderWork"):
+                continue
             if "".join(ty) != "usize":
                 raise CannotTranslate(f"parameter {n} of type {''.join(ty)}")
             names.append(n)
@@ -619,6 +658,21 @@ SPECS = [
     ("src/rate/rate_low.rs", r"impl.*RateDecoder\s*<\s*E\s*>\s*for\s+LowRateDecoder\b|impl.*\bLowRateDecoder\s*<\s*E\s*>$", "work_count", "LowRateDecoder_work_count", "nat"),
 ]
 
+SPECS += [
+    ("src/rate/rate_high.rs", r"impl.*\bHighRateEncoder\s*<\s*E\s*>$", "reset_work", "HighRateEncoder_reset_work", "reset4"),
+    ("src/rate/rate_high.rs", r"impl.*\bHighRateDecoder\s*<\s*E\s*>$", "reset_work", "HighRateDecoder_reset_work", "reset6"),
+    ("src/rate/rate_low.rs", r"impl.*\bLowRateEncoder\s*<\s*E\s*>$", "reset_work", "LowRateEncoder_reset_work", "reset4"),
+    ("src/rate/rate_low.rs", r"impl.*\bLowRateDecoder\s*<\s*E\s*>$", "reset_work", "LowRateDecoder_reset_work", "reset6"),
+]
+
+# `Self::validate` / `Self::work_count` inside the reset_work functions
+SELF_FNS = {
+    "HighRateEncoder_reset_work": {"Self::validate": ("Rate_validate HighRate_supports", 3, "res"), "Self::work_count": ("HighRateEncoder_work_count", 2, "nat")},
+    "HighRateDecoder_reset_work": {"Self::validate": ("Rate_validate HighRate_supports", 3, "res"), "Self::work_count": ("HighRateDecoder_work_count", 2, "nat")},
+    "LowRateEncoder_reset_work": {"Self::validate": ("Rate_validate LowRate_supports", 3, "res"), "Self::work_count": ("LowRateEncoder_work_count", 2, "nat")},
+    "LowRateDecoder_reset_work": {"Self::validate": ("Rate_validate LowRate_supports", 3, "res"), "Self::work_count": ("LowRateDecoder_work_count", 2, "nat")},
+}
+
 # what `Self::supports` means inside each translated function
 SELF_SUPPORTS = {
     "HighRateEncoder_work_count": "HighRate_supports", "HighRateDecoder_work_count": "HighRate_supports",
@@ -649,9 +703,12 @@ def main():
             sup = SELF_SUPPORTS.get(lean)
             if sup:
                 fns["Self::supports"] = (sup, 2, "bool")
+            fns.update(SELF_FNS.get(lean, {}))
             tr = Tr(fns)
             names, term = tr.function(lean, params, body)
             ty = {"bool": "Option Bool", "nat": "Option Nat",
+                  "reset4": "Option (Res (Nat × Nat × Nat × Nat))",
+                  "reset6": "Option (Res (Nat × Nat × Nat × Nat × Nat × Nat))",
                   "res": "Option (Res Bool)" if lean == "use_high_rate" else "Option (Res Unit)"}[kind]
             extra = "(supports : Nat → Nat → Option Bool) " if sup == "supports" else ""
             src = " ".join(t[1] for t in body)
